@@ -28,7 +28,16 @@ pub fn dump(seed: u64, out: &str) {
                 continue;
             }
         };
-        o.emit(&json!({"op":"resolve","key":format!("resolve/{}", name),"str":name,"name":name,"o":"ok","via":"get_calendar_by_name"}));
+        // the Python-facing `get_named_calendar` must hand out the same calendar: every day of 1970-2200, business day and holiday
+        let (py_o, py_diff) = match guard(|| cpy::named_calendar(name)) {
+            Outcome::Ok(Ok(pc)) => {
+                let (r0, r1) = (nd(&ndt(1970, 1, 1)), nd(&ndt(2200, 12, 31)));
+                ("ok".to_string(), (r0..=r1).filter(|d| { let x = dn(*d); pc.is_bus_day(&x) != cal.is_bus_day(&x) || pc.is_holiday(&x) != cal.is_holiday(&x) }).count())
+            }
+            Outcome::Ok(Err(e)) => (e, 0),
+            Outcome::Panic(_) => ("panic".to_string(), 0),
+        };
+        o.emit(&json!({"op":"resolve","key":format!("resolve/{}", name),"str":name,"name":name,"o":"ok","via":"get_calendar_by_name","py_o":py_o,"py_diff_n":py_diff}));
         for y in 1970..=2200i32 {
             let (a, b) = (nd(&ndt(y, 1, 1)), nd(&ndt(y, 12, 31)));
             let mut hol = vec![];
